@@ -145,6 +145,30 @@ def eq_call(t):
     return None
 
 
+def deval(t):
+    """the value behind any number of references / dereferences (comparing two `&i64` compares the integers)"""
+    for _ in range(8):
+        if isinstance(t, tuple) and t and t[0] in ("ref", "refmut", "deref"):
+            t = t[1]
+        else:
+            break
+    return t
+
+
+def inequality_fact(c):
+    """(a, b, unequal) if the path condition says that the values a and b are unequal / equal, however the test is spelled:
+    `a != b`, `a == b` (either outcome), on values or through references (PartialEq for &A)"""
+    t = c.term
+    if not (c.fact[0] == "eq" and isinstance(c.fact[1], bool)):
+        return None
+    if isinstance(t, tuple) and t and t[0] == "binop" and t[1] in ("Eq", "Ne"):
+        return (deval(t[2]), deval(t[3]), c.fact[1] == (t[1] == "Ne"))
+    e = eq_call(t)
+    if e is not None:
+        return (deval(e[1]), deval(e[2]), c.fact[1] == e[0])
+    return None
+
+
 def eq_self_type(t):
     """textual type(s) compared by a PartialEq call term: callee path plus its generic arguments"""
     return t[1] + " " + " ".join(t[2]) if is_call(t) else ""
